@@ -1670,6 +1670,9 @@ func startsWithLparen(node Node) bool {
 		return true // keep ( (
 	case *ArithmCmd:
 		return true // keep ( ((
+	case *FuncDecl:
+		// a zsh anonymous function starts with "()": keep ( () and $( ()
+		return !node.RsrvWord && node.Name == nil && len(node.Names) == 0
 	}
 	return false
 }
